@@ -23,7 +23,7 @@ reg('C03', engine='h_planners', level='fault_enumeration',
     floors={'quick': {'c03_interrupted_solves': 8000, 'c03_resume_checks': 1500, 'leak_scopes_checked': 8000, 'c03_clear_checks': 60},
             'thorough': {'c03_interrupted_solves': 30000}},
     hang_is_violation=True,
-    case_timeout={'quick': 75, 'thorough': 240},
+    case_timeout={'quick': 40, 'thorough': 180},
     level_text='fault enumeration over the evaluation index at which the termination condition first fires (exhaustive for '
                'small k, sampled beyond) and exploration of call histories; oracle: status truthfulness, C01 solution oracle, '
                'bounded further evaluations, keep-or-improve on resume, no stale query end points, live-state accounting, ASan',
